@@ -341,13 +341,13 @@ not have any effect."""
             on the literal present in the clause. (default: True)
         """
         data = [(1,l) for l in clause] + ['>=', 1]
-        if _verif.ENABLED:
-            _verif.note_literals(self, [l for (_, l) in data[:-2]])
 
         # a refused clause must not stay in the formula
         if check:
             self._check_and_update(data)
 
+        if _verif.ENABLED:
+            _verif.note_literals(self, [l for (_, l) in data[:-2]])
         self._constraints.append(data)
 
     def add_clauses_from(self, clauses, check=True):
@@ -395,12 +395,12 @@ not have any effect."""
             clause. (default: True)
         """
         constraint = normalize_opb(constraint)
-        if _verif.ENABLED:
-            _verif.note_literals(self, [l for (_, l) in constraint[:-2]])
         # a refused constraint must not stay in the formula
         if check:
             self._check_and_update(constraint)
 
+        if _verif.ENABLED:
+            _verif.note_literals(self, [l for (_, l) in constraint[:-2]])
         self._constraints.append(constraint)
 
     def add_constraints_from(self, constraints, check=True):
